@@ -469,6 +469,8 @@ def d5_adc(ctx):
                     return _P.sym("C")
                 if isinstance(e, ast.Call) and call_name(e) in ("mod", "remainder") and len(e.args) == 2:
                     return self.ev(ast.BinOp(left=e.args[0], op=ast.Mod(), right=e.args[1]))
+                if isinstance(e, ast.Call) and call_name(e) == "floor" and len(e.args) == 1 and isinstance(e.args[0], ast.BinOp) and isinstance(e.args[0].op, ast.Div):
+                    return self.ev(ast.BinOp(left=e.args[0].left, op=ast.FloorDiv(), right=e.args[0].right))   # floor(a / b) == a // b
                 if isinstance(e, ast.Call) and call_name(e) == "floor_divide" and len(e.args) == 2:
                     return self.ev(ast.BinOp(left=e.args[0], op=ast.FloorDiv(), right=e.args[1]))
                 return super().ev(e)
@@ -559,6 +561,57 @@ def d6_shank_key(ctx):
     C04.d5_marker_key(ctx, rule_id="D6")
 
 
+SITE_REDUCTIONS = ("min", "max", "amin", "amax", "nanmin", "nanmax", "mean", "median", "sum", "ptp", "std", "var", "argmin", "argmax", "cumsum", "diff",
+                   "percentile", "quantile", "average", "nanmean", "nanmedian", "unique", "bincount")
+SITE_FUNCS = ("spikeglx.geometry_from_meta", "neuropixel.rc2xy", "neuropixel.xy2rc")
+
+
+def d8_site_local(ctx):
+    ctx.rule("D8", "a site's coordinates are a function of that site's own map entry: no reduction over the saved sites (min / max / mean / ...) feeds x, y, col, row")
+    repo = ctx.repo
+    n = 0
+    for q in SITE_FUNCS:
+        fi = repo.fn(q)
+        du = DefUse(fi.node)
+        # per-site arrays: the parameters row / col / x / y of the conversions, and entries th[...] / cm[...] of the site table
+        site_params = {p_ for p_ in fi.params if p_ in ("row", "col", "x", "y")}
+
+        def per_site(e, at, depth=0):
+            if depth > 5 or e is None:
+                return False
+            if isinstance(e, ast.Subscript) and isinstance(e.slice, ast.Constant) and isinstance(e.slice.value, str) and e.slice.value in ("x", "y", "col", "row", "shank", "z"):
+                return True
+            if isinstance(e, ast.Name):
+                if e.id in site_params:
+                    return True
+                ds = du.strong_reaching(e.id, at)
+                return any(d.kind == "assign" and d.value is not None and d.unpack_index is None and per_site(d.value, d.stmt, depth + 1) for d in ds)
+            if isinstance(e, (ast.BinOp,)):
+                return per_site(e.left, at, depth + 1) or per_site(e.right, at, depth + 1)
+            if isinstance(e, ast.UnaryOp):
+                return per_site(e.operand, at, depth + 1)
+            if isinstance(e, ast.Call) and call_name(e) in ("mod", "floor", "round", "abs", "astype", "asarray", "array", "copy", "remainder", "floor_divide"):
+                inner = e.args[0] if e.args and not (isinstance(e.func, ast.Attribute) and not (isinstance(e.func.value, ast.Name) and e.func.value.id in ("np", "numpy"))) \
+                    else getattr(e.func, "value", None)
+                return per_site(inner, at, depth + 1)
+            return False
+        for st in walk_function(fi.node):
+            for c in find(st, ast.Call) if isinstance(st, ast.stmt) and not isinstance(st, (ast.If, ast.For, ast.While, ast.With, ast.Try, ast.FunctionDef)) else []:
+                nm = call_name(c)
+                if nm not in SITE_REDUCTIONS:
+                    continue
+                meth = isinstance(c.func, ast.Attribute) and not (isinstance(c.func.value, ast.Name) and c.func.value.id in ("np", "numpy"))
+                operand = c.func.value if meth else (c.args[0] if c.args else None)
+                if not per_site(operand, st):
+                    continue
+                n += 1
+                ctx.violation(fi, st, st, f"`{src(c)[:60]}` reduces over the saved sites and feeds `{src(st)[:70]}`: the coordinates of a site then depend on WHICH OTHER sites "
+                              "were saved - a sub-selection of the probe is no longer the restriction of the full layout (e.g. a mirror about the extent of the selection "
+                              "instead of the shank axis)", key="site-reduction:" + nm, name_free=True)
+    if n == 0:
+        ctx.ok(repo.fn(SITE_FUNCS[0]), repo.fn(SITE_FUNCS[0]).node, "site coordinates", f"no reduction over the site axis in {', '.join(x.rsplit('.', 1)[1] for x in SITE_FUNCS)}", key="site-local")
+
+
 def run(ctx):
     ctx.run(d1_joint_permutation)
     ctx.run(d2_sort_keys)
@@ -567,5 +620,6 @@ def run(ctx):
     ctx.run(d5_adc)
     ctx.run(d6_shank_key)
     ctx.run(d7_no_shared_mutation)
+    ctx.run(d8_site_local)
     from rules import C01
     ctx.run(C01.d2b_returned_index)
